@@ -49,8 +49,14 @@ def scale(  # pylint: disable=dangerous-default-value  # always replaced by stat
     # Handle scaling
     if "scale" not in _state:
         if isinstance(scale, (bool, numpy.bool_)) and scale:
-            _state["scale"] = numpy.sqrt(
-                numpy.sum(data**2, axis=0) / (data.shape[0] - ddof)
+            # (normalised by the largest magnitude, so that the squares neither
+            # overflow nor underflow for very large / small data)
+            magnitude = numpy.max(numpy.abs(data), axis=0)
+            magnitude = numpy.where(
+                numpy.isfinite(magnitude) & (magnitude > 0), magnitude, 1.0
+            )
+            _state["scale"] = magnitude * numpy.sqrt(
+                numpy.sum((data / magnitude) ** 2, axis=0) / (data.shape[0] - ddof)
             )
         elif not isinstance(scale, (bool, numpy.bool_)):
             _state["scale"] = numpy.array(scale)
